@@ -111,6 +111,7 @@ def handle (op : String) (args : List String) : String :=
     match parseApi api, sequenceOpt (files.map parseFile) with
     | some api, some files => run api files
     | _, _ => "bad-request"
+  | "C12.limit", _ => "unsupported (resource test on the real code only)"
   | _, _ => "unsupported-op"
 
 end RsslVerif.Driver.C12
